@@ -49,9 +49,11 @@ CHECKS = {
  "C09": ("Kernel-checked theorem, for every schema, path, visited set, judges and oracle: with the visited-path cut-off removed the schema "
          "walker of the default (errors) and example (warnings) validators reports a message exactly when the recursive specification asks for "
          "it (the judgement of the value at some location reachable through items, tuple items, additionalItems, properties, "
-         "patternProperties, additionalProperties, allOf, under that location's path); with the code's suffix heuristic in place the walker is "
-         "the same function on every schema none of whose paths triggers it; decide-witnesses of the heuristic skipping property a of "
-         "definition a and of an exact path collision. Tie: on grammar documents with good/bad values at every location kind, the locations and "
+         "patternProperties, additionalProperties, allOf, under that location's path); the code as it is (exact visited set and suffix "
+         "heuristic) is the same function, and reports the same, on every schema, path and visited set where the bookkeeping is unambiguous "
+         "(no walked path triggers the heuristic, no two walked locations render to the same path, none visited before: a decidable "
+         "predicate), by a compositional proof over walker states; decide-witnesses of the heuristic skipping property a of definition a and "
+         "of an exact path collision (what lies outside the predicate is exactly the listed finding). Tie: on grammar documents with good/bad values at every location kind, the locations and "
          "wrapper messages Go reports = those of the model (as-is), and every difference from the repaired model must be attributed to the listed finding.",
          "Lean 4 proof (mutual structural induction: traversal = recursive specification) + location-level differential", "DESIGN.md §6 C09, §14"),
  "C10": ("Kernel-checked theorems about the model of (*SpecValidator).Validate: stop-early errors are a subset of continue-on-errors errors "
